@@ -105,10 +105,19 @@ def run(repo: Repo) -> Result:
                 continue
             for k, body, _ in top:
                 asg = lstrip_assigns(body)
-                # assignments nested under a further condition do not count as unconditional
-                direct = [a for a in asg if a in body]
-                if not direct:
-                    res.add("C10-TRAIL", tok.qual, f"{alt.kind}:lstrip-not-set", f"the {alt.kind} branch does not set the left-strip flag unconditionally, so a stale flag from earlier markup applies to the text that follows", tok.file, body[0].lineno)
+                # the flag must be (re)assigned on *every* path through the branch — also on
+                # early `continue`s — or a stale flag from earlier markup applies to the text
+                # that follows (must-flow over the branch body)
+                from ..flow import MustFlow
+
+                flow = MustFlow(gen=lambda st: {"set"} if isinstance(st, ast.Assign) and any(is_name(t, "lstrip") for t in st.targets) else set())
+                flow._loops = [{"breaks": [], "continues": []}]
+                flow._try_acc = []
+                flow.exits = []
+                out = flow.block(body, frozenset())
+                ends = list(flow._loops[0]["continues"]) + list(flow._loops[0]["breaks"]) + ([out] if out is not None else []) + [st for kk, _n, st in flow.exits if kk == "return"]
+                if not ends or any("set" not in st for st in ends):
+                    res.add("C10-TRAIL", tok.qual, f"{alt.kind}:lstrip-not-set", f"the {alt.kind} branch has a path that does not set the left-strip flag, so a stale flag from earlier markup applies to the text that follows (or this markup's own hyphen is ignored)", tok.file, body[0].lineno)
                 for a in asg:
                     g = _group_of(a.value)
                     if g != alt.trailing_hyphen_group:
@@ -266,5 +275,6 @@ def selftest(repo: Repo):
         v("lookahead-without-hyphen", L, 'content_pattern = rf".+?(?=(({tag_s}|{stmt_s})(?P<rstrip>-?))|$)"', 'content_pattern = rf".+?(?=(({tag_s}|{stmt_s}))|$)"', "C10-"),
         v("comment-node-writes", "liquid/builtin/tags/comment_tag.py", "        \"\"\"Render the node to the output buffer.\"\"\"\n        return 0", "        \"\"\"Render the node to the output buffer.\"\"\"\n        return buffer.write(self.text or \"\")", "C10-SILENT"),
         v("content-node-strips", "liquid/builtin/content.py", "        return buffer.write(self.text)", "        return buffer.write(self.text.strip())", "C10-TEXT"),
+        v("raw-empty-skips-flag", L, '            value = match.group("raw")\n', '            value = match.group("raw")\n            if not value:\n                continue\n', "C10-TRAIL"),
         v("comment-lookahead-missing", L, 'content_pattern = rf".+?(?=(({tag_s}|{stmt_s}|{comment_s})(?P<rstrip>-?))|$)"', 'content_pattern = rf".+?(?=(({tag_s}|{stmt_s})(?P<rstrip>-?))|$)"', "C10-LEAD"),
     ]
